@@ -41,12 +41,12 @@ namespace Momo.Val
 
 abbrev Elem := Nat
 abbrev Mgr := Nat
-abbrev Hdl := Nat
+-- handles of heap blocks are plain `Nat` (so that `omega` sees them)
 
 /-- observable events: ledger of the memory managers and life-cycle of element objects -/
 inductive Ev where
-  | alloc (m : Mgr) (h : Hdl)     -- manager `m` handed out block `h`
-  | free (m : Mgr) (h : Hdl)      -- block `h` given back *to manager `m`* (the manager the container holds at that moment)
+  | alloc (m : Mgr) (h : Nat)     -- manager `m` handed out block `h`
+  | free (m : Mgr) (h : Nat)      -- block `h` given back *to manager `m`* (the manager the container holds at that moment)
   | copy (e : Elem)               -- copy construction of an element
   | move (e : Elem)               -- move construction of an element
   | destroy (e : Elem)
@@ -58,34 +58,34 @@ structure Cell where
   items : List Elem
 deriving DecidableEq, Repr
 
-def lookupH : List (Hdl × Cell) → Hdl → Option Cell
+def lookupH : List (Nat × Cell) → Nat → Option Cell
   | [], _ => none
   | p :: r, h => if h = p.1 then some p.2 else lookupH r h
 
 /-- the heap: live blocks (association list, newest first) and the first handle never used -/
 structure Heap where
-  cells : List (Hdl × Cell)
-  next : Hdl
+  cells : List (Nat × Cell)
+  next : Nat
 
 namespace Heap
 def empty : Heap := ⟨[], 0⟩
-def get (H : Heap) (h : Hdl) : Option Cell := lookupH H.cells h
+def get (H : Heap) (h : Nat) : Option Cell := lookupH H.cells h
 /-- `Allocate`: the new block gets the handle `H.next` -/
 def alloc (H : Heap) (m : Mgr) (xs : List Elem) : Heap := ⟨(H.next, ⟨m, xs⟩) :: H.cells, H.next + 1⟩
-def free (H : Heap) (h : Hdl) : Heap := ⟨H.cells.filter (fun p => p.1 != h), H.next⟩
-def setItems (H : Heap) (h : Hdl) (xs : List Elem) : Heap :=
+def free (H : Heap) (h : Nat) : Heap := ⟨H.cells.filter (fun p => p.1 != h), H.next⟩
+def setItems (H : Heap) (h : Nat) (xs : List Elem) : Heap :=
   ⟨H.cells.map (fun p => if p.1 = h then (p.1, ⟨p.2.mgr, xs⟩) else p), H.next⟩
 end Heap
 
 /-- one block per list; returns the handles `H.next, H.next+1, …` -/
-def allocCells (m : Mgr) : List (List Elem) → Heap → List Hdl × Heap
+def allocCells (m : Mgr) : List (List Elem) → Heap → List Nat × Heap
   | [], H => ([], H)
   | xs :: rest, H =>
     let r := allocCells m rest (H.alloc m xs)
     (H.next :: r.1, r.2)
 
-def freeCells (hs : List Hdl) (H : Heap) : Heap := hs.foldl Heap.free H
-def emptyCells (hs : List Hdl) (H : Heap) : Heap := hs.foldl (fun H h => H.setItems h []) H
+def freeCells (hs : List Nat) (H : Heap) : Heap := hs.foldl Heap.free H
+def emptyCells (hs : List Nat) (H : Heap) : Heap := hs.foldl (fun H h => H.setItems h []) H
 
 /-- a container object: nothing but a manager (or a null crew pointer), handles, and the items of the
     internal buffer. The elements live in the heap. -/
@@ -93,19 +93,19 @@ structure Cont where
   /-- the memory manager the object holds; `none` = the crew pointer is null (`pvIsNull()`) -/
   mgr : Option Mgr
   /-- item-less blocks: crew, HashMultiMap value crew -/
-  aux : List Hdl
+  aux : List Nat
   /-- `Array` with internalCapacity > 0: items stored inside the object -/
   inl : List Elem
   /-- item-bearing blocks: external buffer / segment-pointer array + segments / bucket arrays newest
       first / node params + nodes in pre-order / … -/
-  body : List Hdl
+  body : List Nat
   /-- `Array::Data::mCapacity` while external (0 otherwise; unused by the other kinds) -/
   cap : Nat
 deriving DecidableEq, Repr
 
-def Cont.owned (c : Cont) : List Hdl := c.aux ++ c.body
+def Cont.owned (c : Cont) : List Nat := c.aux ++ c.body
 
-def itemsAt (H : Heap) (h : Hdl) : List Elem :=
+def itemsAt (H : Heap) (h : Nat) : List Elem :=
   match H.get h with
   | some c => c.items
   | none => []
